@@ -577,6 +577,14 @@ pub fn run_case(case: &Case, sink: &mut dyn FnMut(usize, String)) {
                 }
                 "srch" => guarded(|| run_search(&w, st)),
                 "loop" => guarded(|| run_loop(&w, st)),
+                "ecmp" => guarded(|| {
+                    let a = w.nodes.borrow()[pusize(&st[1])].clone();
+                    let b = w.nodes.borrow()[pusize(&st[3])].clone();
+                    match (a.iter_out().nth(pusize(&st[2])), b.iter_out().nth(pusize(&st[4]))) {
+                        (Some(x), Some(y)) => format!("ecmp eq={} cmp={:?} pcmp={:?}", (x == y) as u8, x.cmp(&y), x.partial_cmp(&y)),
+                        _ => "none".to_string(),
+                    }
+                }),
                 "cmp" => guarded(|| {
                     let a = w.nodes.borrow()[pusize(&st[1])].clone();
                     let b = w.nodes.borrow()[pusize(&st[2])].clone();
